@@ -55,6 +55,8 @@ def expand(tid, ops):
         kind = op[0]
         if kind == 'map':
             image('DYLD_uuid_map_a', op[1], op[2])
+        elif kind == 'unmap':      # an image is unmapped (same address, same uuid as an announcement): samples are still
+            image('DYLD_uuid_unmap_a', op[1], op[2])      # attributed among the images announced earlier in the stream
         elif kind == 'sample':
             sample(*op[1:])
         elif kind == 'launch':
@@ -230,7 +232,8 @@ def op_strategy():
         lambda t: [['sc', t[0], t[1]], [t[3], t[0], t[2]], ['sc', (t[0] + 3) % 8, t[2]]]))
     near = st.tuples(st.just('sample'), st.just(0x08), st.just(True), st.integers(4, 12),
                      st.lists(st.integers(0, 39), min_size=4, max_size=12), st.booleans())
-    return st.one_of(mp, mp, sample, sample, launch, dup, near).map(lambda t: [list(x) if isinstance(x, tuple) else x for x in t])
+    unmap = st.tuples(st.just('unmap'), ai, ui)
+    return st.one_of(mp, mp, sample, sample, launch, dup, near, unmap).map(lambda t: [list(x) if isinstance(x, tuple) else x for x in t])
 
 
 def run(ctx):
